@@ -299,6 +299,24 @@ def _resolve(ast_attr, path, mp):
     return value
 
 
+def user_predicate_raises(ast, mp):
+    """True when some test() atom's own predicate raises on the value it would be given for `mp`
+    (evaluated for every atom, without short circuit: the DSL evaluates both operands of & and |).
+    Such a predicate is not total on valid points - its error is the caller's, not the DSL's."""
+    for a in atoms(ast):
+        if a[0] != "test":
+            continue
+        try:
+            value = _resolve(a[1], a[2], mp)
+        except _Fail:
+            continue
+        try:
+            TESTS[a[3]](value, *[rhs_real(x) for x in a[4]])
+        except Exception:
+            return True
+    return False
+
+
 def holds(ast, mp):
     """Documented truth value of `ast` on model point `mp`."""
     kind = ast[0]
